@@ -87,3 +87,60 @@ Theorem C16_served_accessibility_is_correct : forall all d h s p rows,
   access_response_correct d s p rows (served all d h (QAccess p rows)).
 Proof. exact served_access_ok. Qed.
 Print Assumptions C16_served_accessibility_is_correct.
+
+(* ---- WHAT IS LOADED IS WHAT THE CODE BUILDS (Proofs/LoaderGuardsTie.v): which array element of a trip entry feeds which
+   field of a connection, the range of the construction loop, the minimum waiting time by mode, and the rows a per-stop file
+   contributes (forward row, reverse row, self row) are regenerated from the CURRENT C++ sources into gen/LoaderGuards.v
+   (tools/gen_loader_guards.py) on every run; a shifted index (`canUnboard[i]` for `canUnboard[i+1]`), two swapped constructor
+   arguments or a changed constant stop this file from compiling ---- *)
+From TrV Require Import Proofs.LoaderGuardsTie.
+From TrV Require gen.LoaderGuards.
+Module LG := TrV.gen.LoaderGuards.
+
+Theorem C16_connection_fields_are_code : forall tid minw nodes arr dep cb cu i,
+  (length arr <= length dep)%nat -> (length arr <= length cb)%nat -> (length arr <= length cu)%nat ->
+  (length arr <= length nodes)%nat ->
+  LG.gen_conn_loop_cond i (length arr) = true ->
+  nth_error (mk_conns tid minw 1 nodes (zip_times arr (firstn (length arr) dep) (firstn (length arr) cb) (firstn (length arr) cu))) i =
+  Some {| c_trip := tid; c_seq := LG.gen_conn_seq i;
+          c_from := nth (LG.gen_conn_from_idx i) nodes 0%nat; c_to := nth (LG.gen_conn_to_idx i) nodes 0%nat;
+          c_dep := LG.gen_conn_dep (nth i dep 0) (nth (S i) dep 0) (nth i arr 0) (nth (S i) arr 0);
+          c_arr := LG.gen_conn_arr (nth i dep 0) (nth (S i) dep 0) (nth i arr 0) (nth (S i) arr 0);
+          c_cb := LG.gen_conn_can_board (nth i cb 0) (nth (S i) cb 0) (nth i cu 0) (nth (S i) cu 0);
+          c_cu := LG.gen_conn_can_unboard (nth i cb 0) (nth (S i) cb 0) (nth i cu 0) (nth (S i) cu 0);
+          c_minw := minw |}.
+Proof. exact loaded_conn_fields_code. Qed.
+Print Assumptions C16_connection_fields_are_code.
+
+Theorem C16_connection_range_is_code : forall tid minw nodes arr dep cb cu i,
+  (length arr <= length dep)%nat -> (length arr <= length cb)%nat -> (length arr <= length cu)%nat ->
+  (length arr <= length nodes)%nat ->
+  LG.gen_conn_loop_start = 0%nat /\
+  (LG.gen_conn_loop_cond i (length arr) = false ->
+   nth_error (mk_conns tid minw 1 nodes (zip_times arr (firstn (length arr) dep) (firstn (length arr) cb) (firstn (length arr) cu))) i = None).
+Proof. exact loaded_conn_range_code. Qed.
+Print Assumptions C16_connection_range_is_code.
+
+Theorem C16_min_waiting_time_is_code : forall d t,
+  trip_conns d t = mk_conns (t_id t) (LG.gen_conn_minw (Nat.eqb (trip_mode d t) TRANSFERABLE_MODE)) 1%nat (trip_nodes d t) (t_times t).
+Proof. exact trip_conns_minw_code. Qed.
+Print Assumptions C16_min_waiting_time_is_code.
+
+(* a healthy per-stop file of stop t: its kept rows become t's forward list; every kept row r adds (t, time, distance) - the
+   generated fields - to the reverse list of r's stop; then the generated self row goes to t's own reverse list *)
+Theorem C16_stop_file_rows_are_code : forall known t rest files fp rfp msg rows,
+  files t = FDecoded msg -> node_rows_code known msg = Some rows ->
+  load_node_files known (t :: rest) files fp rfp =
+  load_node_files known rest files (app_at fp t rows)
+    (app_at (fold_left (fun m r => app_at m (fp_node r)
+                          [{| fp_node := t; fp_time := LG.gen_node_rev_time (fp_time r) (fp_dist r);
+                              fp_dist := LG.gen_node_rev_dist (fp_time r) (fp_dist r) |}]) rows rfp)
+            t [{| fp_node := t; fp_time := LG.gen_node_self_time; fp_dist := LG.gen_node_self_dist |}]).
+Proof. exact load_node_files_step_code. Qed.
+Print Assumptions C16_stop_file_rows_are_code.
+
+Theorem C16_stop_file_row_placement_is_code :
+  LG.gen_node_row_names_target = true /\ LG.gen_node_rev_owner_is_target = true /\ LG.gen_node_rev_names_current = true /\
+  LG.gen_node_self_owner_is_current = true /\ LG.gen_node_self_names_current = true /\ LG.gen_node_self_after_rows = true.
+Proof. exact gen_node_row_placement_spec. Qed.
+Print Assumptions C16_stop_file_row_placement_is_code.
